@@ -83,6 +83,8 @@ func newType(typeName string, old ast.LlvmNode, index map[string]*ast.TypeDef, t
 		return &types.PointerType{TypeName: typeName}, nil
 	case *ast.VectorType:
 		return &types.VectorType{TypeName: typeName}, nil
+	case *ast.ScalableVectorType:
+		return &types.VectorType{TypeName: typeName}, nil
 	case *ast.LabelType:
 		return &types.LabelType{TypeName: typeName}, nil
 	case *ast.TokenType:
